@@ -803,6 +803,126 @@ def localhostFromClientIPOnly : Bool := %v
 `, pxStrs(exact), pxStrs(prefixes), only)
 	})
 
+	// ---- panic-freedom, structurally: every index / slice expression, explicit panic, unchecked type assertion and
+	// integer division in the functions on the ClientIP path, with the guard that keeps it in range
+	g.guard("index sites", `
+def indexSites : List (String × String × String) := [("EXTRACT-PROBLEM", "", "")]
+def explicitPanicSites : List (String × String) := [("EXTRACT-PROBLEM", "")]
+`, func() string {
+		var sites, panics []string
+		for _, fnm := range []struct{ recv, name string }{{"Context", "ClientIP"}, {"", "lastUntrustedXFF"}, {"", "parseOneIP"},
+			{"", "splitAndTrim"}, {"", "clientIPFromRemoteAddr"}, {"realIPConfig", "isTrusted"}} {
+			d := fn(fnm.recv, fnm.name)
+			// assignments per identifier (to tell what a variable can hold)
+			assigned := map[string][]string{}
+			ast.Inspect(d.Body, func(n ast.Node) bool {
+				switch v := n.(type) {
+				case *ast.AssignStmt:
+					for i, l := range v.Lhs {
+						if id, ok := l.(*ast.Ident); ok && i < len(v.Rhs) {
+							assigned[id.Name] = append(assigned[id.Name], src(v.Rhs[i]))
+						}
+					}
+				case *ast.IncDecStmt:
+					if id, ok := v.X.(*ast.Ident); ok {
+						assigned[id.Name] = append(assigned[id.Name], v.Tok.String())
+					}
+				}
+				return true
+			})
+			var path []ast.Node
+			var visit func(n ast.Node)
+			visit = func(n ast.Node) {
+				if n == nil {
+					return
+				}
+				path = append(path, n)
+				defer func() { path = path[:len(path)-1] }()
+				switch v := n.(type) {
+				case *ast.IndexExpr:
+					base, idx := src(v.X), src(v.Index)
+					guard := "UNGUARDED"
+					// (a) the index of an enclosing descending loop over the same slice
+					for _, p := range path {
+						f, ok := p.(*ast.ForStmt)
+						if !ok || f.Init == nil || f.Cond == nil || f.Post == nil {
+							continue
+						}
+						if src(f.Init) == idx+" := len("+base+") - 1" && src(f.Cond) == idx+" >= 0" && src(f.Post) == idx+"--" && len(assigned[idx]) == 2 {
+							guard = "index of the descending loop over the same slice (0 <= i < len)"
+						}
+					}
+					// (b) under `idx < len(base)` with idx only ever holding len(base) or a loop index
+					for _, p := range path {
+						is, ok := p.(*ast.IfStmt)
+						if ok && src(is.Cond) == idx+" < len("+base+")" {
+							okv := len(assigned[idx]) > 0
+							for _, a := range assigned[idx] {
+								if a != "len("+base+")" && !(len(assigned[a]) > 0 && strings.HasPrefix(assigned[a][0], "len("+base+")")) {
+									okv = false
+								}
+							}
+							if okv {
+								guard = "under idx < len(slice); idx only holds len(slice) or the loop index"
+							}
+						}
+					}
+					// (c) constant 0 after an `if len(base) == 0 { return … }` earlier in the function
+					if idx == "0" {
+						for _, st := range d.Body.List {
+							if st.Pos() >= v.Pos() {
+								break
+							}
+							if is, ok := st.(*ast.IfStmt); ok && src(is.Cond) == "len("+base+") == 0" && pxReturnsIdent(is.Body) != "" {
+								guard = "element 0 after the empty-slice return"
+							}
+						}
+					}
+					// map / header lookups never panic
+					if strings.HasSuffix(base, ".Header") || strings.Contains(base, "map[") {
+						guard = "map lookup"
+					}
+					sites = append(sites, fmt.Sprintf("(%s, %s, %s)", leanStr(fnm.name), leanStr(base+"["+idx+"]"), leanStr(guard)))
+				case *ast.SliceExpr:
+					sites = append(sites, fmt.Sprintf("(%s, %s, %s)", leanStr(fnm.name), leanStr(src(v)), leanStr("UNGUARDED slice expression")))
+				case *ast.TypeAssertExpr:
+					unchecked := true
+					if len(path) >= 2 {
+						if as, ok := path[len(path)-2].(*ast.AssignStmt); ok && len(as.Lhs) == 2 {
+							unchecked = false
+						}
+					}
+					if unchecked && v.Type != nil {
+						panics = append(panics, fmt.Sprintf("(%s, %s)", leanStr(fnm.name), leanStr("unchecked "+src(v))))
+					}
+				case *ast.CallExpr:
+					if id, ok := v.Fun.(*ast.Ident); ok && id.Name == "panic" {
+						panics = append(panics, fmt.Sprintf("(%s, %s)", leanStr(fnm.name), leanStr(src(v))))
+					}
+				case *ast.BinaryExpr:
+					if v.Op == token.QUO || v.Op == token.REM {
+						panics = append(panics, fmt.Sprintf("(%s, %s)", leanStr(fnm.name), leanStr("division "+src(v))))
+					}
+				}
+				ast.Inspect(n, func(m ast.Node) bool {
+					if m == nil || m == n {
+						return m == n
+					}
+					visit(m)
+					return false
+				})
+			}
+			visit(d.Body)
+		}
+		return fmt.Sprintf(`
+/-- every index expression in ClientIP, lastUntrustedXFF, parseOneIP, splitAndTrim, clientIPFromRemoteAddr,
+    isTrusted: (function, expression, what keeps it in range) -/
+def indexSites : List (String × String × String) := [%s]
+/-- explicit panics, unchecked type assertions and integer divisions in those functions -/
+def explicitPanicSites : List (String × String) := [%s]
+`, strings.Join(sites, ", "), strings.Join(panics, ", "))
+	})
+
 	var out strings.Builder
 	out.WriteString("/- GENERATED by extract/proxies.go from router/proxies.go and router/request.go of the current working tree — do not edit, not committed. -/\nnamespace Rivaas.Gen.Proxies\n")
 	if len(g.errs) > 0 {
